@@ -207,7 +207,10 @@ func createNestedFunc(
 	return rel.NewNativeFunction(
 		name+strconv.Itoa(nArgs),
 		func(ctx context.Context, parent rel.Value) (rel.Value, error) {
-			return createNestedFunc(name, nArgs-1, f, fnArgs{args: append(args.args, parent), ctx: ctx})
+			// Every application of this partial value must get its own copy of the arguments collected so far:
+			// appending in place would let two applications (possibly on different goroutines) share one slot.
+			collected := append(args.args[:len(args.args):len(args.args)], parent)
+			return createNestedFunc(name, nArgs-1, f, fnArgs{args: collected, ctx: ctx})
 		}), nil
 }
 
